@@ -156,6 +156,28 @@ func runLOC(c *Ctx) []Ob {
 							writes++
 							checkFlow(info, file, x.Pos(), f, x.Rhs[i])
 						}
+						// r.Start.Line = … / r.End.Character = … on an lsp.Range: the field-by-field form of the literal below
+						if sel, ok := ast.Unparen(l).(*ast.SelectorExpr); ok {
+							if inner, ok := ast.Unparen(sel.X).(*ast.SelectorExpr); ok {
+								if tv, ok := info.Types[inner.X]; ok {
+									if pp, nn := namedPkgName(tv.Type); pp == protoPkg && nn == "Range" &&
+										(inner.Sel.Name == "Start" || inner.Sel.Name == "End") && (sel.Sel.Name == "Line" || sel.Sel.Name == "Character") {
+										srcs, _ := directLocReads(info, x.Rhs[i])
+										for _, s := range srcs {
+											conv++
+											wantDim := map[string]string{"Line": "line", "Character": "column"}[sel.Sel.Name]
+											wantRole := map[string]string{"Start": "start", "End": "end"}[inner.Sel.Name]
+											v, note := OK, ""
+											if wantDim != dimOf(s) || wantRole != roleOf(s) {
+												v, note = VIOLATION, fmt.Sprintf("lsp.Range.%s.%s is fed from Location.%s", inner.Sel.Name, sel.Sel.Name, s)
+											}
+											pos := x.Pos()
+											mk(&pos, file, "to-lsp", inner.Sel.Name+"."+sel.Sel.Name, s, v, note)
+										}
+									}
+								}
+							}
+						}
 					}
 				case *ast.CompositeLit:
 					tv, ok := info.Types[x]
